@@ -152,7 +152,7 @@ func c18One(l *LabCtx) {
 func init() {
 	RegisterLab(&LabDef{
 		ID:      "C18",
-		Inputs:  map[string]int{"quick": 4000, "thorough": 60000},
+		Inputs:  map[string]int{"quick": 8000, "thorough": 80000},
 		Batches: map[string]int{"quick": 8, "thorough": 16},
 		One:     c18One,
 	})
